@@ -514,7 +514,9 @@ func checkCursor(p *core.Prog, r *core.Run, m *echModel, rule string, app *ssa.C
 	r.Check(rule, "process:cursor-in-range", inRange, pos, "the append is guarded by cursor != len(h.Extensions) (not found aborts)")
 	immediateAbort(p, r, rule, "process:reference-not-found", m.process, cmpAssume("cursor == len(h.Extensions)", "==",
 		func(e *core.Expr) bool { return e.Val == ssa.Value(phi) },
-		func(e *core.Expr) bool { return e.Op == "call" && e.Name == "len" && e.Args[0].Op == "field" && e.Args[0].Obj == m.fCH["Extensions"] }),
+		func(e *core.Expr) bool {
+			return e.Op == "call" && e.Name == "len" && e.Args[0].Op == "field" && e.Args[0].Obj == m.fCH["Extensions"]
+		}),
 		"ech.ErrIllegalParameter", func(ret *ssa.Return) bool { return !isNilConst(ret.Results[0]) })
 	// the search loop: leaves only when cursor out of range or type matches; body only increments
 	searchOK := false
